@@ -64,7 +64,14 @@ static Outcome runCase(const KV& c)
         const int nsolves    = (int)c.getI("r" + std::to_string(k) + "_solves", 1);
         if (!haveSetup || setupTimeDiffers(cfg, setupCfg))
             doSetup = true; // documented use: structural options need setup()
-        if (k > 0)
+        if (k > 0 && c.getI("r" + std::to_string(k) + "_reselect", 0)) {
+            // a different shipped problem: test-case selection resets the options to the parser's defaults
+            cfg.select(*s);
+            cfg.applyOptions(*s);
+            doSetup = true;
+            o.cls("problem_reselected");
+        }
+        else if (k > 0)
             cfg.applyChanged(*s, cfgs[k - 1]); // only what the user changes between two solves
         try {
             if (doSetup) {
@@ -77,6 +84,13 @@ static Outcome runCase(const KV& c)
             o.cls("rejected_by_exception");
             haveSetup = false;
             continue;
+        }
+        if (k > 0) {
+            const SolverCfg& pv = cfgs[k - 1];
+            if (pv.dirbc != cfg.dirbc) o.cls("changed_dirbc");
+            if (pv.threads != cfg.threads || pv.reduction != cfg.reduction) o.cls("changed_threads");
+            if (pv.R0 != cfg.R0 || pv.aniso != cfg.aniso || pv.div != cfg.div || pv.nr_exp != cfg.nr_exp) o.cls("changed_grid");
+            if (pv.cache_coef != cfg.cache_coef || pv.cache_geom != cfg.cache_geom || pv.strategy != cfg.strategy) o.cls("changed_strategy_or_caches");
         }
         sig += (doSetup ? "S" : "s") + std::to_string(cfg.extrapolation) + std::to_string(cfg.fmg) + std::to_string(cfg.nr_exp + cfg.div);
         for (int q = 0; q < nsolves; q++) {
@@ -178,6 +192,37 @@ static KV genCase()
                 s.nr_exp = rint(3, 5);
             if (k > 0 && rint(0, 3) == 0)
                 s.strategy = rint(0, 1);
+            // "a different problem size or option set": every other public option may change between two rounds as well
+            if (k > 0) {
+                if (rint(0, 3) == 0)
+                    s.dirbc = rbool();
+                if (rint(0, 3) == 0)
+                    s.threads = rpick({1, 2}); // more threads: reductions are combined in arrival order, not bit-reproducible
+                if (rint(0, 3) == 0)
+                    s.reduction = rpick({1.0, 0.5, 0.3});
+                if (rint(0, 5) == 0)
+                    s.R0 = s.Rmax * rpick({1e-5, 1e-3, 1e-2, 0.1});
+                if (rint(0, 5) == 0)
+                    s.aniso = rint(0, 1);
+                if (rint(0, 5) == 0)
+                    s.div = rint(0, 1);
+                if (rint(0, 5) == 0) {
+                    // another shipped test problem on the same object: setParameters() again, then the options
+                    s.geometry = rint(0, 2);
+                    s.problem  = rint(0, 2);
+                    s.alpha    = rint(0, 3);
+                    s.beta     = rint(0, 1);
+                    genGeometryParams(s);
+                    s.R0 = s.Rmax * rpick({1e-5, 1e-3, 1e-2});
+                    c.putI("r" + std::to_string(k) + "_reselect", 1);
+                }
+            }
+            if (s.strategy == 1 && k > 0 && rint(0, 2) == 0) {
+                s.cache_coef = rbool();
+                s.cache_geom = rbool();
+            }
+            if (s.strategy == 0)
+                s.cache_coef = s.cache_geom = 1;
         }
         else
             s.div = std::min(2, k);
